@@ -284,6 +284,17 @@ var dialURL, _ = url.Parse("ws://example.com/x")
 // picked protocol and answers every offered extension with a parameter value
 // of generation g.
 func clientUpgrade(s shape, g int, trailing int, chunks []int) (ws.Handshake, error) {
+	br, hs, err := clientUpgradeBR(s, g, trailing, chunks)
+	if br != nil {
+		io.Copy(io.Discard, br)
+		ws.PutReader(br)
+	}
+	return hs, err
+}
+
+// clientUpgradeBR returns the buffered reader as Dialer.Upgrade hands it out (nil when the
+// server sent nothing beyond the response, or the dialer had not read it yet).
+func clientUpgradeBR(s shape, g int, trailing int, chunks []int) (*bufio.Reader, ws.Handshake, error) {
 	d := ws.Dialer{ReadBufferSize: s.BufSize, WriteBufferSize: s.BufSize, Protocols: s.protos(g)}
 	var answer []string
 	for i, n := range s.ExtLens {
@@ -298,14 +309,9 @@ func clientUpgrade(s shape, g int, trailing int, chunks []int) (ws.Handshake, er
 	proto := s.protos(g)[s.Pick]
 	p := &lazyPeer{chunks: chunks, render: func(key string) []byte {
 		return []byte("HTTP/1.1 101 Switching Protocols\r\nUpgrade: websocket\r\nConnection: Upgrade\r\nSec-WebSocket-Accept: " + acceptFor(key) +
-			"\r\nSec-WebSocket-Protocol: " + proto + "\r\nSec-WebSocket-Extensions: " + strings.Join(answer, ", ") + "\r\n\r\n" + strings.Repeat("T", trailing))
+			"\r\nSec-WebSocket-Protocol: " + proto + "\r\nSec-WebSocket-Extensions: " + strings.Join(answer, ", ") + "\r\n\r\n" + word(g, 60, trailing))
 	}}
-	br, hs, err := d.Upgrade(p, dialURL)
-	if br != nil {
-		io.Copy(io.Discard, br)
-		ws.PutReader(br)
-	}
-	return hs, err
+	return d.Upgrade(p, dialURL)
 }
 
 // closeReason handles a close frame whose reason is word(g, ·, n) and returns the ClosedError.
@@ -474,7 +480,7 @@ func clientWrite(g, n int) {
 
 var resultKinds = []string{
 	"Upgrader/Protocol+Extension", "Upgrader/Negotiate:wsflate", "HTTPUpgrader/Protocol+Extension", "HTTPUpgrader/Negotiate:wsflate",
-	"Dialer", "ClosedError", "ReadMessage", "ReadData", "ReadMessage/fragmented", "ReadData/fragmented", "ReadMessage+HandleControlMessage", "ReadMessage/recycled-slice", "ReadData/partial-with-error", "ReadFrame",
+	"Dialer", "ClosedError", "ReadMessage", "ReadData", "ReadMessage/fragmented", "ReadData/fragmented", "ReadMessage+HandleControlMessage", "ReadMessage/recycled-slice", "ReadData/partial-with-error", "ReadFrame", "Dialer/early-bytes",
 }
 
 func TestResultsSurvivePoolReuse(t *testing.T) {
@@ -496,6 +502,7 @@ func TestResultsSurvivePoolReuse(t *testing.T) {
 		// step 1: obtain the result and snapshot it
 		var live func() string
 		var err error
+		var earlyBR *bufio.Reader
 		switch kind {
 		case "Upgrader/Protocol+Extension", "Upgrader/Negotiate:wsflate":
 			var hs ws.Handshake
@@ -529,6 +536,16 @@ func TestResultsSurvivePoolReuse(t *testing.T) {
 			if err == nil && string(p) != want {
 				t.Fatalf("the ping payload returned by ReadMessage was changed by HandleControlMessage answering it: %q, want %q (side %v)", p, want, side)
 			}
+		case "Dialer/early-bytes":
+			// bytes the server sent right after its response are handed to the caller in a buffered reader; the
+			// caller may read them later, after other handshakes have come and gone (the reader is the caller's
+			// until it gives it back with ws.PutReader)
+			var hs ws.Handshake
+			if trailing == 0 {
+				trailing = 7
+			}
+			earlyBR, hs, err = clientUpgradeBR(s, 0, trailing, nil)
+			live = func() string { return renderHS(hs) }
 		case "ReadFrame":
 			// ws.ReadFrame from a plain or a buffered source holding several frames: the payload of an earlier
 			// frame stays what it was while the later frames are read (a buffered source refills its buffer)
@@ -602,7 +619,7 @@ func TestResultsSurvivePoolReuse(t *testing.T) {
 				switch {
 				case strings.HasPrefix(kind, "Upgrader"), strings.HasPrefix(kind, "HTTPUpgrader"):
 					op = "upgrade"
-				case kind == "Dialer":
+				case kind == "Dialer", kind == "Dialer/early-bytes":
 					op = "dial"
 				case kind == "ClosedError":
 					op = "close"
@@ -644,6 +661,18 @@ func TestResultsSurvivePoolReuse(t *testing.T) {
 			}
 			if now := live(); now != snapshot {
 				t.Fatalf("%s result changed after follow-up step %d (%v):\n  before: %q\n  after:  %q\nshape: %+v size=%d", kind, g, trace, snapshot, now, s, size)
+			}
+		}
+		if kind == "Dialer/early-bytes" {
+			if earlyBR == nil {
+				// the read buffer ended exactly at the end of the response head: the early bytes are still in the transport
+				hx.Class("Dialer/early-bytes/left-in-transport")
+			} else {
+				got, _ := io.ReadAll(earlyBR)
+				if want := word(0, 60, trailing); string(got) != want {
+					t.Fatalf("the bytes the server sent right after its response, read from the returned reader after %d later operations (%v): %q, the server sent %q", nsteps, trace, head(got), head([]byte(want)))
+				}
+				ws.PutReader(earlyBR)
 			}
 		}
 		hx.Eval()
